@@ -597,6 +597,14 @@ def r01q(ctx, rep, rule="R01q"):
              "before it tests, which is how a macro emits several definitions; compile_runnable compiles the forms one by one — "
              "a loop around Vm::compile — into the top-level procedure, where a definition defines a global.")
     testers = _begin_testers(facts)
+    # the splicer proper: a function with a loop that tests for begin itself or through a loop-free predicate
+    splicers = []
+    for p_, h_ in facts.fns.items():
+        if not p_.startswith(COMPILE) or not h_.back_edges():
+            continue
+        if p_ in testers or any(callee(t) in testers and not facts.fns[callee(t)].back_edges() for bb, t in h_.calls()):
+            splicers.append(p_)
+    testers = sorted(set(testers) | set(splicers))
     f = need(rep, rule, facts, COMPILE + "compile_runnable")
     if f is None:
         return
@@ -642,7 +650,7 @@ def r01q(ctx, rep, rule="R01q"):
             "macro use (keywords recognised: %s; splicing helper called: %s): the definitions inside it become internal "
             "definitions of a throw-away procedure, so (let () (begin (define a 1)) a) refers to an outer a" % (sorted(kws), uses), [g.span])
     # the helper looks through macro uses
-    for p in testers:
+    for p in sorted(splicers):
         h = facts.fns[p]
         if p in (COMPILE + "compile_runnable",):
             continue
